@@ -64,6 +64,10 @@ def harnesses(ctx, tier):
                       desc="yr_parser_emit_pushes_for_rules: a wildcard rule set only contains rules of the namespace being compiled",
                       bounds="3 rules, 2 namespaces, identifiers 1..2 chars over {x,y}, any prefix", functions=["yr_parser_emit_pushes_for_rules", "yr_hash_table_lookup_uint32"],
                       stubs=["yyget_extra"]))
+    hs.append(Harness(name="H7_failure_link_optimisation", src="c05/ac_optimize.c", unwind=8, timeout=600,
+                      desc="_yr_ac_optimize_failure_links on a 6-state automaton (three overlapping strings) with arbitrary input bytes and arbitrary depth-decreasing failure links: the goto function is unchanged",
+                      bounds="6 states (root, depths 1,1,2,2,3); all input bytes; all failure links to shallower states; arbitrary (state, byte)",
+                      functions=["_yr_ac_optimize_failure_links", "_yr_ac_transitions_subset", "_yr_ac_queue_push", "_yr_ac_queue_pop"]))
     hs.append(Harness(name="H5_ac_table_growth", src="c05/ac_slot.c", unwind=6, timeout=600, unwind_funcs={"_yr_arena_allocate_memory": 12},
                 desc="_yr_ac_find_suitable_transition_table_slot: for ANY slot the packing heuristic may return, the state's 257 transition entries lie inside the accounted (saved) table size",
                 bounds="tables_size 257..600, slot 0..tables_size", functions=["_yr_ac_find_suitable_transition_table_slot", "yr_arena_allocate_zeroed_memory"], stubs=["yr_bitmask_find_non_colliding_offset -> any offset <= tables_size"]))
